@@ -16,7 +16,7 @@ def key_of(case, ignore=()):
 
 
 def run_groups(res, groups, want_dec=None, timeout=120, variant="hooks", recon=True, packets=True,
-               known_key_fn=None, what="observations", require_complete=True, extra_fn=None):
+               known_key_fn=None, what="observations", require_complete=True, extra_fn=None, dec_errors=True):
     """groups: list of (key, [cases]).  All cases of a group must observe the same packets / pictures.
     Returns list of (key, [runs])."""
     flat = []
@@ -42,7 +42,7 @@ def run_groups(res, groups, want_dec=None, timeout=120, variant="hooks", recon=T
             continue
         extra = extra_fn(r) if extra_fn else None
         oe = stream.observe_events(c["_key"], r, r.get("dec"), packets=packets,
-                                   recon=recon and bool(int(c.get("sets", {}).get("recon_enabled", 0))), extra=extra)
+                                   recon=recon and bool(int(c.get("sets", {}).get("recon_enabled", 0))), extra=extra, dec_errors=dec_errors)
         b.add("Observe", oe, r["desc"])
     res.sample({"observe_trace_prefix": b.recs.get("Observe", [])[:8]})
 
